@@ -61,7 +61,7 @@ func genProj(r *rng, spare int) *Proj {
 	p := &Proj{Pkgs: allPkgs[:np], Globals: map[string]map[string]int{}, Noise: map[string]int{}, Blank: map[string]int{}, Files: map[string]string{},
 		HelperK: r.below(50), HelperV: r.below(50)}
 	for _, pkg := range p.Pkgs {
-		p.Globals[pkg] = map[string]int{"G0": r.constant(), "G1": r.constant(), "UNUSED": r.below(100)}
+		p.Globals[pkg] = map[string]int{"G0": r.constant(), "G1": r.constant(), "UNUSED": r.below(100), "LA": r.below(50)}
 	}
 	// sources per package: two files, one directory (the root package gets a nested one)
 	var srcPool []string
@@ -143,6 +143,12 @@ func genProj(r *rng, spare int) *Proj {
 			t.Dflt = r.constant()
 		case 7:
 			t.Free = r.constant()
+		case 8:
+			t.Global = "LISTS" // references the two list globals LA and LB
+		}
+		// values 0 and 1 are over-represented: they have the most equal-but-distinguishable spellings (0.0, -0.0, False, 1.0, True)
+		if r.chance(25) {
+			t.Const = r.below(2)
 		}
 		if r.chance(20) && t.Global == "" {
 			t.Helper = true
@@ -295,6 +301,8 @@ type gen struct {
 	// labels removed while a collection happened: never re-created (C14's exclusion)
 	collected map[string]bool
 	hadGC     bool
+	// respell: the equal-but-distinguishable value edits (D25) are part of the C01 and C02 generators
+	respell bool
 }
 
 func (g *gen) add(op Op) {
@@ -358,13 +366,27 @@ func (g *gen) semanticEdit(t *Tgt) bool {
 	})
 	if t.Global != "" {
 		opts = append(opts, func() bool {
+			name := t.Global
+			if name == "LISTS" {
+				name = "LA"
+			}
 			v := r.constant()
-			if v == g.p.Globals[t.Pkg][t.Global] {
+			if v == g.p.Globals[t.Pkg][name] {
 				v++
 			}
-			g.edit(Edit{Kind: "global", Pkg: t.Pkg, Name: t.Global, Val: v})
+			g.edit(Edit{Kind: "global", Pkg: t.Pkg, Name: name, Val: v})
 			return true
 		})
+	}
+	// equal-but-distinguishable respellings of a referenced value (1 ↔ 1.0, 0.0 ↔ -0.0, True ↔ 1): the values compare ==,
+	// the body's output (the repr of the value) differs
+	if ks := g.formKeys(t); g.respell && len(ks) > 0 {
+		respell := func() bool {
+			k := ks[r.below(len(ks))]
+			g.edit(Edit{Kind: "form", Name: k.key, Text: g.otherForm(k.key, k.val)})
+			return true
+		}
+		opts = append(opts, respell, respell)
 	}
 	if t.Helper {
 		opts = append(opts, func() bool {
@@ -383,6 +405,46 @@ func (g *gen) semanticEdit(t *Tgt) bool {
 		opts = append(opts, func() bool { g.edit(Edit{Kind: "free", Target: t.Label(), Val: t.Free + 1 + r.below(300)}); return true })
 	}
 	return opts[r.below(len(opts))]()
+}
+
+type formKey struct {
+	key string
+	val int
+}
+
+// formKeys: the value positions target t references
+func (g *gen) formKeys(t *Tgt) []formKey {
+	ks := []formKey{{"const|" + t.Label(), t.Const}}
+	if t.Global != "" && t.Global != "LISTS" {
+		ks = append(ks, formKey{globalKey(t.Pkg, t.Global), g.p.Globals[t.Pkg][t.Global]})
+	}
+	if t.Helper {
+		ks = append(ks, formKey{"helperk", g.p.HelperK}, formKey{"helperv", g.p.HelperV})
+	}
+	switch g.p.form(t) {
+	case "closure":
+		ks = append(ks, formKey{"free|" + t.Label(), t.Free})
+	case "default":
+		ks = append(ks, formKey{"dflt|" + t.Label(), t.Dflt})
+	}
+	return ks
+}
+
+// otherForm: a spelling different from the present one that denotes an == value
+func (g *gen) otherForm(key string, v int) string {
+	forms := []string{"", "float"}
+	if v == 0 {
+		forms = append(forms, "negzero")
+	}
+	if v == 0 || v == 1 {
+		forms = append(forms, "bool")
+	}
+	cur := g.p.Forms[key]
+	for {
+		if f := forms[g.r.below(len(forms))]; f != cur {
+			return f
+		}
+	}
 }
 
 // noopEdits: edits that change no input of anything in the closure of `root`:
@@ -531,7 +593,16 @@ func (g *gen) uniformEdit() {
 		}
 		g.edit(Edit{Kind: "const", Target: t.Label(), Val: v})
 	case 14:
-		g.edit(Edit{Kind: "comment", Pkg: t.Pkg})
+		if g.respell && r.chance(50) {
+			// aliasing of the two list globals: one object or two equal ones (not observable by a body)
+			f := "shared"
+			if p.Forms["alias|"+t.Pkg] == "shared" {
+				f = ""
+			}
+			g.edit(Edit{Kind: "form", Name: "alias|" + t.Pkg, Text: f})
+		} else {
+			g.edit(Edit{Kind: "comment", Pkg: t.Pkg})
+		}
 	case 15:
 		g.edit(Edit{Kind: "doc", Target: t.Label()})
 	}
@@ -926,7 +997,7 @@ func genHistory(r *rng, prop string, nops int) *History {
 		spare = 2
 	}
 	p := genProj(r, spare)
-	g := &gen{r: r, p: p.clone(), h: &History{Proj: p, Template: prop}, collected: map[string]bool{}}
+	g := &gen{r: r, p: p.clone(), h: &History{Proj: p, Template: prop}, collected: map[string]bool{}, respell: prop == "C01" || prop == "C02"}
 	// start from a built tree most of the time
 	if r.chance(80) {
 		g.add(g.build(g.p.topRoot()))
